@@ -199,6 +199,9 @@ func (pg *PaillierGroup[X]) UnmarshalCBOR(data []byte) error {
 		if err != nil {
 			return errs.Wrap(err)
 		}
+		if dto.N == nil {
+			return errs.Wrap(ErrFailed).WithMessage("missing field in Paillier group encoding")
+		}
 		n2 := dto.N.Square()
 		reconstructed, err := NewPaillierGroupOfUnknownOrder(n2, dto.N)
 		if err != nil {
